@@ -126,7 +126,8 @@ def run(chk):
         if samp:
             a = samp[len(samp) // 2]
             chk.sample({'instance': tag, 'history': a[0], 'expanded': a[1]})
-        sel = rng.sample(args, min(len(args), 1500 if quick else 12000))
+        plain = [a for a in args if not any('\\' in t for l in a[0] for t in l['r'])]     # end to end only without string tokens
+        sel = rng.sample(plain, min(len(plain), 1500 if quick else 12000))
         out = runner.pmap(e2e, sel)
         for a, r in zip(sel, out):
             chk.traces += 1
